@@ -521,10 +521,10 @@ fn pretty_print(output: TokenStream) -> «(r:» String«)
 }
 //@end
 
-//@stub lib.rs::token_text trusted-sha256=61e01a630b9b84e4
+//@stub lib.rs::token_text proved-in=canon
 «#[verifier::external_body]»
 fn token_text(tokens: TokenStream) -> «(r:» String«)
-    ensures r@ == canon_text(ts_view(&tokens)), // [C19.canon] TRUSTED (the body walks proc_macro2 token trees, which Verus cannot see into): the text is a function of the tokens»
+    ensures r@ == canon_text(ts_view(&tokens)), // [C19.canon] the text is the canonical text of the tokens: every token, in order, separated by spaces, groups inside their own delimiters; only a comma that is the last token of a stream or group is dropped»
 { unimplemented!() }
 //@end
 
